@@ -16,17 +16,26 @@ from harness import common as C
 LEVEL = "proof"
 RULE = ("matrix cases: random rational matrices/points/rectangles incl. singular, zero and negative entries; "
         "plane cases: random op sequences (add/remove/find/iter) over boxes on, across and outside the grid and the "
-        "plane bounds, negative non-integer coordinates, zero-size boxes; a case is non-trivial when it is a distinct "
+        "plane bounds, negative non-integer coordinates, zero-size boxes; full-interface histories (add/extend/remove of "
+        "live, removed and never-added objects/find/in/len/iter, gridsizes 1..500, zero-size planes); get_bound on "
+        "0..10 points incl. coordinates at and beyond +-INF; uniq/fsplit on int lists with duplicates and two "
+        "predicate families; a case is non-trivial when it is a distinct "
         "input that is not the identity/zero matrix resp. a sequence with >=1 find that returns >=1 object")
 TRUSTED_BASE = [
     "tools/translate (Python ast -> Lean) for mult_matrix, translate_matrix, apply_matrix_pt, apply_matrix_rect, "
-    "apply_matrix_norm, drange, MATRIX_IDENTITY - every translated definition is also run against the Python original",
+    "apply_matrix_norm, drange, MATRIX_IDENTITY, INF, get_bound (loop body translated, loop = List.foldl) - every "
+    "translated definition is also run against the Python original",
+    "uniq / fsplit: Lean definitions emitted by gen_c20.py only while the Python source has exactly the pinned "
+    "ast shape (generic generator/loop code is outside the translator subset); run against the Python original",
     "hand model lean/PdfVerif/Model/Plane.lean of utils.Plane (correspondence-checked on op sequences)",
     "exact rationals stand for Python floats (no rounding modelled)",
 ]
 ASSUMPTIONS = [
     "coordinates are exact rationals (fractions.Fraction on the Python side); IEEE rounding is not modelled",
-    "boxes are well formed (x0<=x1, y0<=y1); every add inserts a fresh object; remove targets a live object",
+    "boxes are well formed (x0<=x1, y0<=y1); every add/extend inserts fresh objects; remove targets a live object "
+    "or an object that is not in the index (then: KeyError, index unchanged - plane_remove_absent)",
+    "get_bound is the tight hull for non-empty point lists inside [-INF, INF]^2 (outside: the +-INF limit shows, "
+    "modelled and proved as get_bound_attained_or_limit)",
 ]
 STATEMENT_STATUS = {}
 
@@ -411,7 +420,8 @@ def check_plane_case(ctx: C.Ctx, pb, gs, ops, in_domain: bool, lines, impl_all, 
              sample={"bounds": [str(x) for x in pb], "gridsize": gs, "ops": [op_json(o) for o in ops[:12]]},
              branch="plane:domain" if in_domain else "plane:wild")
     for o, r in zip(ops, outs):
-        ctx.branch("planeop:" + o[0] + (":hit" if o[0] == "find" and r != "-" else ""))
+        ctx.branch("planeop:" + o[0] + (":hit" if o[0] == "find" and r != "-" else "") +
+                   (":" + r if o[0] in ("remove", "contains") else ""))
     lines.append(f"plane.new {show(pb)} {gs}")
     impl_all.append("ok")
     inputs.append(("plane.new", None))
